@@ -84,3 +84,200 @@ EXISTS TABLE table1
 BEGIN TRANSACTION
 ROLLBACK
 (SELECT toString(getMergeTreeSetting('index_granularity')) AS val) AS t2
+SELECT 1 UNION ALL (SELECT 2 UNION DISTINCT SELECT 3 UNION ALL SELECT 4 UNION DISTINCT SELECT 5)
+SELECT 1 UNION DISTINCT (SELECT 2 UNION ALL SELECT 3 UNION DISTINCT SELECT 4) UNION ALL SELECT 5
+(SELECT 1 UNION ALL SELECT 2) UNION DISTINCT (SELECT 3 UNION ALL SELECT 4 UNION DISTINCT SELECT 5)
+SELECT count(*, x) FILTER (WHERE x > 1), uniqExact(a, *, b) FILTER (WHERE a), count(*) FILTER (WHERE b) FROM t
+SELECT sum(a), toDate(d), SUM(b), Sum(c), TODATE(e), todate(f), COUNT(*), Count(), count() FROM t
+SELECT SUM(x), sum(y), toDate(z), TODATE(w) FROM t
+SELECT nan, inf, -inf, (nan), (inf), [nan, inf], (1, -inf) FROM t
+SELECT quantile(0.5)(x), quantiles(0.1, 0.9)(y), QUANTILE(0.5)(z), topK(3)(w) FROM t
+SELECT CAST(x AS Nullable(String)), x::Array(UInt8), CAST(y, 'Date'), [1, NULL]::Array(Nullable(UInt8)) FROM t
+SELECT a, b FROM t1 GLOBAL ANY LEFT JOIN t2 USING (k) ARRAY JOIN arr AS e PREWHERE p WHERE w GROUP BY a, b WITH ROLLUP HAVING h ORDER BY a DESC NULLS LAST WITH FILL FROM 1 TO 10 STEP 2 LIMIT 3 BY a LIMIT 10 OFFSET 2
+WITH 1 AS x, y AS (SELECT 2) SELECT x, (SELECT * FROM y) UNION ALL SELECT 3, 4
+SELECT CASE WHEN a THEN 1 WHEN b THEN 2 ELSE 3 END, if(a, b, c), a ? b : c, x -> x + 1, arrayMap((x, y) -> x + y, a, b)
+SELECT * EXCEPT (a) REPLACE (b + 1 AS b) APPLY (toString), COLUMNS('^x') FROM t
+SELECT sum(x) OVER (PARTITION BY a ORDER BY b ROWS BETWEEN 1 PRECEDING AND CURRENT ROW), rank() OVER w FROM t WINDOW w AS (ORDER BY c)
+ALTER TABLE t ADD COLUMN c UInt8 DEFAULT 1 AFTER b, DROP COLUMN d, MODIFY COLUMN e String, RENAME COLUMN f TO g
+CREATE TABLE t (a UInt8, b Nullable(String) DEFAULT 'x' CODEC(ZSTD(3)), c Array(Tuple(x UInt8, y String))) ENGINE = MergeTree ORDER BY (a, b) PARTITION BY toYYYYMM(d) TTL d + INTERVAL 1 MONTH SETTINGS index_granularity = 8192
+CREATE DICTIONARY d (k UInt64, v String DEFAULT '') PRIMARY KEY k SOURCE(CLICKHOUSE(TABLE 't' DB 'db')) LAYOUT(FLAT()) LIFETIME(MIN 0 MAX 1000)
+SELECT age('year', toDateTime64('2015-02-02 20:30:36.200', 3, 'UTC'), toDateTime64('2023-02-02 20:30:36.100', 3, 'UTC'))
+SELECT * FROM mysql('127.0.0.1:9004', currentDatabase(), foo, 'default', '', SETTINGS connect_timeout = 100, connection_wait_timeout = 100) ORDER BY key
+ATTACH TABLE stripe_log_02184
+alter table defaulted add column payload_length UInt64 materialized length(payload)
+ALTER TABLE mv_00610 DROP PARTITION 201801
+UPDATE t_lightweight SET c1 = 15000 WHERE id = 15
+SET max_ast_depth = 10_000_000
+SET optimize_injective_functions_inside_uniq = 1
+DESCRIBE (SELECT p.`产品`, p.`销量` FROM test ARRAY JOIN products AS p)
+DELETE FROM t_large WHERE a = 50000
+DESCRIBE (SELECT id, value FROM test_table)
+insert into test_rows_compact_part__fuzz_11 select 1
+INSERT INTO t_replicated_merge_tree select '2024-08-02', '1', toString(number)  FROM numbers(100)
+EXPLAIN indexes = 1 SELECT * FROM test_skip_idx WHERE id < 3
+EXPLAIN SYNTAX SELECT [1, 1 + 1, 1 + 2]::Array(UInt32) AS c
+SELECT 1 AS x, x, (SELECT 2 AS x, x) FROM remote('127.0.0.{2,3}', system.one) WHERE (3, 4) IN (SELECT 3 AS x, toUInt8(x + 1))
+DESC format(JSONEachRow, '{"x" : 1.1e20}') settings input_format_try_infer_exponent_floats = 0
+ALTER TABLE tp ADD PROJECTION p (SELECT sum(eventcnt), type GROUP BY type)
+CREATE INDEX idx_tab2_5 ON tab2 (col1)
+WITH test1 AS (SELECT i + 1, j + 1 FROM test1) SELECT * FROM test1
+SELECT * FROM test WHERE '2020-10-15' != timestamp ORDER BY timestamp
+SELECT visitParamExtractFloat('{"myparam":null}', 'myparam')
+OPTIMIZE TABLE nest FINAL
+drop table if exists t_rio
+SELECT round(quantileOrNullMerge(0.10)((*,).1)) FROM t5
+SELECT k, count() AS c FROM (SELECT number, CASE WHEN number < 10 THEN 'hello' WHEN number < 50 THEN 'world' ELSE 'goodbye' END AS k FROM system.numbers LIMIT 100) GROUP BY k WITH TOTALS HAVING nullIf(c, 10) < 50 ORDER BY c
+SELECT * FROM columns_with_multiple_streams_compact ORDER BY field0
+ATTACH TABLE {CLICKHOUSE_DATABASE:Identifier}.tablefunc04
+ALTER TABLE eligible_test ADD COLUMN b String SETTINGS use_query_cache = true
+INSERT INTO cool_table SELECT number, range(number), arrayMap(x -> (arrayMap(y -> 'k' || toString(y), range(x % 4)), range(x % 4))::Map(LowCardinality(String), UInt64), range(number)) FROM numbers(10)
+OPTIMIZE TABLE testNullableStatesAgg FINAL
+SELECT 'hasToken reference without index'
+SELECT CASE WHEN (number % 2) = 0 THEN [toInt32(1), toInt32(2)] WHEN (number % 3) = 0 THEN [toInt8(2), toInt8(3)] ELSE [toInt64(3), toInt64(3)] END FROM system.numbers LIMIT 10
+SELECT CASE WHEN (number % 2) = 0 THEN [toUInt16(1), toUInt16(2)] WHEN (number % 3) = 0 THEN [toFloat64(2), toFloat64(3)] ELSE [toUInt8(3), toUInt8(3)] END FROM system.numbers LIMIT 10
+SELECT 't join none using'
+SELECT multiIf((number % 2) = 0, [toUInt32(1), toUInt32(2)], (number % 3) = 0, [toUInt8(2), toUInt8(3)], [toUInt64(3), toUInt64(3)]) FROM system.numbers LIMIT 10
+SYSTEM STOP MERGES tbl
+SHOW INDEX FROM `tab.with.dots`
+CREATE TABLE qbits (id UInt32, vec QBit(BFloat16, 16)) ENGINE = AggregatingMergeTree ORDER BY id
+system stop merges test_block_mismatch_sk1
+SELECT round(entropy(number), 6) FROM remote('127.0.0.{1,2}', numbers(256))
+SELECT sumMapMerge(s) FROM (SELECT sumMapState(statusMap.status, statusMap.requests) AS s FROM sum_map)
+SELECT materialize('a\xFFb') LIKE materialize('a%\xFFb')
+optimize table ttl_test_02129 final
+select * from test_memory
+DROP DATABASE 01681_database_for_flat_dictionary
+set mutations_sync=1
+DROP TABLE IF EXISTS t_lwu_memory SYNC
+EXISTS TEMPORARY TABLE temp_tab
+show create table tp_2
+DELETE FROM test_virtual_columns WHERE a = 1
+SELECT s, replaceAll(s, '_', 'o') AS a, replaceRegexpAll(s, '_', 'o') AS b, a = b FROM (SELECT arrayJoin(['._', '_._']) AS s)
+ALTER TABLE alter_test MODIFY COLUMN `b` DateTime DEFAULT now()
+ATTACH TABLE mutate_and_zero_copy_replication2
+SELECT dictGetKeys('dict_valexpr', 's', CAST('alpha' AS LowCardinality(String)))
+explain select * from distributed_table limit 1 by id
+SELECT arrayNormalizedGini([0.9, 0.3, 0.8, 0.75, 0.65, 0.6, 0.78, 0.7, 0.05, 0.4, 0.4, 0.05, 0.5, 0.1, 0.1], [1, 1, 1, 1, 1, 1, 0, 0, 0, 0, 0, 0, 0, 0, 0])
+OPTIMIZE TABLE t_bloom_filter FINAL
+CREATE TABLE values_list AS VALUES('a UInt64, s String', (1, 'one'), (2, 'two'), (3, 'three'))
+SELECT groupArrayMovingSum(0) FROM system.one
+SYSTEM SYNC REPLICA replica1
+SELECT toDate('2015-02-05') >= '2015-02-04'
+WITH toDateTime(1 + rand() % 0xFFFFFFFF) AS t SELECT count() FROM numbers(1000000) WHERE formatDateTime(t, '%Y-%m-%d %H:%i:%S') != toString(t)
+desc format(CSV, '"2020-01-01 00:00:00"\n"2020-01-01"')
+RENAME TABLE {CLICKHOUSE_DATABASE:Identifier}.r1 TO {CLICKHOUSE_DATABASE:Identifier}.r1_bak
+ALTER TABLE table_rename_with_ttl MODIFY TTL date1 + INTERVAL 1 MONTH
+SELECT COUNT() FROM bloom_filter_array_lc_null_types_test WHERE has(i8, 100)
+SELECT ignore(subtractDays(toDate(0), 1))
+SELECT * FROM test_deep_nested_json ORDER BY i
+EXPLAIN SYNTAX SELECT value1 FROM date_t WHERE toYear(date1) <> 1993 AND id BETWEEN 1 AND 3
+SELECT fromUnixTimestamp(0) FROM system.one
+SELECT 'ArrayLastIndex constant predicate'
+DELETE FROM test_deletes WHERE b = 1 SETTINGS lightweight_deletes_sync = 0
+SELECT number FROM temp_tab
+insert into test select number, 'str_' || toString(number) from numbers(200000, 200000)
+SELECT * FROM bf_tokenbf_map_keys_test WHERE map_fixed['K2'] = 'V2' SETTINGS force_data_skipping_indices='map_fixed_keys_tokenbf'
+SELECT space(-3::Int16), length(space(-3::Int16))
+select null as offset, toFixedString('Hello', 6) as s,    subString(bin(s), offset), bin(bitSlice(s, offset))
+OPTIMIZE TABLE hits_snippet
+SELECT age('second', toDateTime64('2015-08-18 00:00:00', 0, 'UTC'), toDateTime('2015-08-18 01:10:10', 'UTC'))
+SELECT length(dictGetKeys('dict_big', 'grp', '123'))
+select isNaN(lgamma(-2))
+DETACH TABLE log_02184
+desc format(Values, '([123, 123])\n([321.321, 312])')
+ALTER TABLE t_mut_virtuals UPDATE s = _part WHERE 1
+SELECT multiIf((number % 2) = 0, [toInt32(1), toInt32(2)], (number % 3) = 0, [toFloat64(2), toFloat64(3)], [toInt32(3), toInt32(3)]) FROM system.numbers LIMIT 10
+EXPLAIN ESTIMATE SELECT count() FROM test.hits WHERE CounterID < 29103473
+with '2018-01-12 22:33:44.55' as s, toDateTime64(s, 6) as datetime64 SELECT fromUnixTimestampInJodaSyntax(datetime64, 'SSSSSSSSS', 'UTC')
+CREATE TABLE userid_test (userid UInt64, name String) ENGINE = MergeTree() PARTITION BY (intDiv(userid, 500)) ORDER BY (userid) SETTINGS index_granularity = 8192
+SHOW CREATE USER u2_01292@'192.168.%.%'
+system stop fetches rmt2
+INSERT INTO 03173_nested_function_lc_null SELECT number FROM numbers(100)
+SELECT CAST(a, 'Int32') as x, toTypeName(x) FROM (SELECT materialize(CAST(NULL, 'Nullable(UInt8)')) AS a)
+DELETE FROM 02581_trips                        WHERE id IN (SELECT (number*10 + 9)::UInt32 FROM numbers(10000000)) SETTINGS lightweight_deletes_sync = 2
+rename table db_hang.test_mv to db_hang_temp.test_mv
+SET input_format_json_infer_array_of_dynamic_from_array_of_different_types=0
+SELECT CASE WHEN (number % 2) = 0 THEN [toUInt64(1), toUInt64(2)] WHEN (number % 3) = 0 THEN [toUInt16(2), toUInt16(3)] ELSE [toUInt64(3), toUInt64(3)] END FROM system.numbers LIMIT 10
+DESCRIBE TABLE t_describe_options
+SELECT concat('With ', materialize(['foo', 'bar'] :: Array(String)))
+INSERT INTO TABLE test1(year, uv) select '2021',uniqThetaState(toInt64(2))
+SHOW CREATE TABLE codecs2
+SHOW CREATE TABLE mt2
+DROP TABLE IF EXISTS underlying_00967
+select * from remote('127.{1,2}', view(select * from system.one), identity(dummy)) format Null
+REVOKE SELECT ON db3.table FROM test_user_01073
+INSERT INTO 01504_test SELECT concat(toString(number), '_1'), number FROM numbers(10000)
+INSERT INTO 02581_trips SELECT number+30000, number+30000, '' FROM numbers(10000)
+insert into in_02231 select * from numbers(5e6) settings max_memory_usage='400Mi', max_threads=1
+TRUNCATE TABLE truncate_test_set
+OPTIMIZE TABLE ttl FINAL
+desc s3Cluster('test_cluster_one_shard_three_replicas_localhost', 'http://localhost:11111/test/{a,b}.tsv', 'test', 'testtest')
+WITH ((1, (1, 1)), (2, (2, 2))) AS liter_prepared_set SELECT COUNT() FROM single_column_bloom_filter WHERE (i64, (i64, i32)) IN liter_prepared_set SETTINGS max_rows_to_read = 6
+INSERT INTO grouparray Select groupArrayIntersectState([]::Array(UInt8))
+SELECT database, table, name, data_compressed_bytes FROM system.data_skipping_indices WHERE database = currentDatabase() AND table = 'tab'
+EXPLAIN indexes = 1, description=0 SELECT id FROM test_table WHERE id <= 10 AND value IN (SELECT 5)
+SYSTEM FLUSH DISTRIBUTED dist_test_01040
+EXPLAIN QUERY TREE dump_tree = 0, dump_ast = 1 SELECT replaceRegexpOne(identity('abc123'), '^(a)(b)$', '\2')
+CREATE TABLE t3 AS numbers(10)
+SELECT max(length(x)) FROM parallel_replicas_plain FORMAT Null
+SELECT CASE WHEN (number % 2) = 0 THEN toUInt32(1) WHEN (number % 3) = 0 THEN toUInt16(2) ELSE toInt32(3) END FROM system.numbers LIMIT 10
+optimize table xp final
+SELECT groupArray(id) FROM tab WHERE hasAllTokens(message, ['cdef'])
+OPTIMIZE TABLE minmax_idx2
+CREATE TABLE t2lc (`a` UInt64, `b` LowCardinality(Nullable(Int64)) ) ENGINE = MergeTree ORDER BY tuple()
+SELECT count(*) FROM (SELECT * FROM numbers(10))
+CREATE INDEX idx_tab3_5 ON tab3 (col1,col3 DESC)
+SELECT count(*) FROM source WHERE toYear(dt) = 2023 SETTINGS enable_analyzer=1
+DETACH TABLE t_index_lazy_load
+ALTER TABLE t_ephemeral_02205_1 DELETE WHERE x = 7
+SELECT arrayMap(x -> '.', range(number % 10)) AS k FROM remote('127.0.0.{2,3}', numbers(10)) GROUP BY GROUPING SETS ((k)) ORDER BY k settings group_by_use_nulls=1
+SYSTEM RELOAD DICTIONARIES
+select toValidUTF8('\x00\x00\x00\x00\x00\xC2\xC2\x80\x00\x00\xE1\x80\x80\x00\x00\x00') from system.numbers limit 10
+WITH IPv4CIDRToRange(toIPv4('192.168.0.0'), 0) as ip_range SELECT COUNT(*) FROM ipv4_range WHERE ip BETWEEN tupleElement(ip_range, 1) AND tupleElement(ip_range, 2)
+EXPLAIN SYNTAX SELECT -(-(-(1)))
+CREATE TABLE binary_op_mono3(i int, j int) ENGINE MergeTree PARTITION BY i + 1000 ORDER BY j
+WITH toInt64(2) AS new_x SELECT * replace(new_x as x)  FROM (SELECT 1 AS x) t
+SELECT JSON_EXISTS('{"a":[{"b":1},{"c":2}]}', '$.a[*].b')
+SELECT 'Special cases'
+select multiFuzzyMatchAny(materialize('leftabcright'), 1, materialize(['a1c']))
+set force_index_by_date=1
+set optimize_group_by_function_keys=0
+SELECT COUNT() FROM bloom_filter_null_types_test WHERE date_time = toDateTime('1970-01-01 02:00:01', 'Asia/Istanbul') SETTINGS max_rows_to_read = 6
+EXPLAIN SYNTAX (SELECT sum(1 + uint64) AS j from test_table having j > 0)
+INSERT INTO t1 SELECT number, number % 100 FROM numbers(100)
+SET enable_analyzer=1, join_algorithm = 'full_sorting_merge'
+SELECT d1, f2, least(d1, f2) FROM t ORDER BY f2
+SYSTEM STOP MERGES t_optimize_level
+ALTER TABLE t MODIFY COMMENT 'World', MODIFY COLUMN x UInt16
+DROP TABLE 03199_fixedstring_array
+SHOW CREATE TABLE constrained2
+EXPLAIN SYNTAX (SELECT sum(2 + uint64) From test_table)
+WITH minSampleSizeContinous(0.0, 10.0, 0.05, 0.8, 0.05) AS res SELECT 'continous const 2', roundBankers(res.1, 2), roundBankers(res.2, 2), roundBankers(res.3, 2)
+CREATE TABLE low_null_float (a LowCardinality(Nullable(Float64))) ENGINE = MergeTree order by tuple()
+RENAME DICTIONARY test_01155_ordinary.dict TO test_01155_atomic.dict
+SELECT toFloat64(0.999999999) as x, toDecimal32(x, 9), toDecimal32(-x, 9), toDecimal64(x, 9), toDecimal64(-x, 9)
+GRANT SELECT(col1) ON db3.table TO test_user_01073
+SELECT * FROM test_tuple_filter WHERE (log_date, value) = ('2021-01-01', 'A')
+INSERT INTO join_on_disk SELECT number as id FROM numbers_mt(50000)
+SHOW TABLES FROM test_truncate_database
+SELECT '37' == dictGetString({CLICKHOUSE_DATABASE:String} || '.dict_ip_trie', 'val', tuple(IPv6StringToNum('ffff:ffff:f800::')))
+BACKUP TABLE t1 TO Memory('b1') FORMAT Null
+SELECT * FROM t_enum_in_unknown_value WHERE e IN ('c')
+SELECT multiIf((number % 2) = 0, [toFloat32(1), toFloat32(2)], (number % 3) = 0, [toInt16(2), toInt16(3)], [toInt8(3), toInt8(3)]) FROM system.numbers LIMIT 10
+DROP TABLE IF EXISTS t_light_r2 SYNC
+select arrayMap(x -> NULL::Nullable(UInt8), range(number)) from numbers(3)
+rename table t2 to t1
+SHOW CREATE ROW POLICY sqllt_row_policy FORMAT Null
+SELECT date_trunc('year', toDate('2020-01-01', 'Europe/London'))
+system flush logs system.metric_log
+SELECT parseDateTime32BestEffortOrNull('Dec 15, 2021') AS a, toTypeName(a)
+DROP VIEW IF EXISTS explain_index_has_all_tokens
+system start merges test
+ALTER TABLE test_alter_if_exists DROP COLUMN c0, MODIFY COLUMN IF EXISTS c0 Int64
+SELECT formatDateTime(toDateTime64('2205-01-12 12:12:12', 6, 'Asia/Istanbul'), '%C')
+ALTER TABLE t_mutation_rows_counter UPDATE x = x + 1 WHERE x = 150
+explain syntax select x3 + 1, x2, x1 from test order by -1
+desc file('02906.orc')
+SELECT toTime64('-99:59:59.123', 3)
+SELECT '99' == dictGetString({CLICKHOUSE_DATABASE:String} || '.dict_ip_trie', 'val', tuple(IPv6StringToNum('ffff:ffff:ffff:ffff:ffff:ffff:ffff:8000')))
+SHOW INDEX FROM database_123456789abcde.tbl
